@@ -13,6 +13,7 @@ TNext == /\ l <= Len(Trace)
               [] Ev.e = "mret"   -> Ret(Ev.i, Ev.class)
               [] Ev.e = "done"   -> Done(Ev.i, Ev.n)
               [] Ev.e = "final"  -> Final(Ev.modCount, Ev.t)
+              [] Ev.e = "idleprobe" -> IdleProbe(Ev.ms)
               [] Ev.e = "probe"  -> ProbeAdmitted(Ev.ms)
               [] Ev.e = "held"   -> ProbeHeld(Ev.held)
               [] Ev.e = "stopret" -> StopRet(Ev.ok, Ev.t0, Ev.t)
